@@ -2219,20 +2219,20 @@ fn update_accumulator(
                 } else {
                     state.count += 1;
                     if let Some(a) = input.as_any().downcast_ref::<Int64Array>() {
-                        state.sum_i64 += a.value(row);
+                        state.sum_i64 = state.sum_i64.saturating_add(a.value(row));
                         state.sum += a.value(row) as f64;
                     } else if let Some(a) = input.as_any().downcast_ref::<Float64Array>() {
                         state.sum += a.value(row);
                     } else if let Some(a) =
                         input.as_any().downcast_ref::<arrow::array::Int32Array>()
                     {
-                        state.sum_i64 += a.value(row) as i64;
+                        state.sum_i64 = state.sum_i64.saturating_add(a.value(row) as i64);
                         state.sum += a.value(row) as f64;
                     } else if let Some(a) = input
                         .as_any()
                         .downcast_ref::<arrow::array::Decimal128Array>()
                     {
-                        state.sum_i64 += a.value(row) as i64;
+                        state.sum_i64 = state.sum_i64.saturating_add(a.value(row) as i64);
                         state.sum += a.value(row) as f64;
                     }
                 }
